@@ -120,6 +120,8 @@ structure Cfg where
   policy : Restrictions := none           -- service/idp/policy
   domain : Option String := none          -- service/idp/domain
   ras : List (String × String) := []      -- metadata: entity ↦ registration authority
+  encCerts : List String := []            -- metadata: entities that publish an encryption certificate
+  unmet : List String := []               -- metadata: entities that REQUIRE an attribute the identity lacks
 deriving Repr, Inhabited
 
 structure NameIdPolicy where
@@ -185,6 +187,9 @@ structure Args (W : Type) where
   freshId : String := ""                         -- what `create_id` would return next
   freshSession : String := ""                    -- the next `sid()` used as SessionIndex
   attrs : W                                      -- from_local(released attributes)
+  pefim : Bool := false                          -- `pefim=`: attributes travel in an advice assertion
+  bestEffort : Option Bool := none               -- `best_effort=` (read by the PEFIM branch only)
+  storeFails : Bool := false                     -- reading the IdentDB raises OSError
 
 /-! ### what is produced -/
 
@@ -210,6 +215,21 @@ structure AuthnOut where
   decl : Bool := false               -- the AuthnContext carries an AuthnContextDecl
 deriving Repr, DecidableEq, Inhabited
 
+/-- An assertion inside the `<Advice>` of an issued assertion (PEFIM: the attribute assertion).
+    `encrypted` = it travels as EncryptedAssertion, opened with the requester's key. -/
+structure AdviceAssertion (W : Type) where
+  encrypted : Bool
+  issuer : Option String
+  sig : Option SigInfo
+  nameId : Option NameId
+  confs : List Conf
+  condNb : Option Int
+  condNooa : Option Int
+  audiences : List (List String)
+  authn : List AuthnOut
+  attrs : W
+deriving Repr, DecidableEq
+
 structure IssuedAssertion (W : Type) where
   issuer : Option String
   sig : Option SigInfo
@@ -220,6 +240,7 @@ structure IssuedAssertion (W : Type) where
   audiences : List (List String)
   authn : List AuthnOut
   attrs : W
+  advice : List (AdviceAssertion W) := []
 deriving Repr, DecidableEq
 
 structure Issued (W : Type) where
@@ -239,6 +260,7 @@ inductive Refusal where
   | fargMalformed      -- TypeError out of argtree.is_set
   | hokNoKeyInfo       -- holder-of-key preset: do_subject_confirmation adds the (absent) key_info
   | ecpSignedNotElement  -- create_ecp_authn_request_response wraps a signed (= string) Response: AttributeError
+  | adviceNotElement     -- PEFIM, MissingValue, best_effort off: setup_assertion's error-Response LINES become the advice
 deriving Repr, DecidableEq, Inhabited
 
 /-! ### the NameID (`gather_authn_response_args`, ident.py) -/
@@ -406,6 +428,83 @@ def create {W : Type} (d : Defaults) (cfg : Cfg) (a : Args W) : Except Refusal (
       else .ok (response (some si))
     else .ok (response none)
 
+/-! ### the PEFIM profile (`_authn_response`, branch `pefim`) and the error Responses -/
+
+/-- The confirmation of the advice assertion: `setup_assertion(None, sp, None, None, None, …, farg=farg)`:
+    `update_farg(None, None, farg)` leaves Recipient / InResponseTo absent unless the caller's tree presets them. -/
+def adviceConf {W : Type} (d : Defaults) (a : Args W) (nooa : Int) : Conf :=
+  let f : Farg := a.farg.getD {}
+  { method := match f.method with | some m => methodOf d m | none => .bearer
+    recipient := f.recipient
+    irt := f.irt
+    nb := f.notBefore
+    nooa := some nooa
+    address := f.address }
+
+/-- The attribute assertion of the PEFIM profile: no NameID, no AuthnStatement, never signed on its own
+    (`sign_assertion and not pefim`), encrypted iff the requester publishes an encryption certificate
+    (`has_encrypt_cert_in_metadata`; no `encrypt_cert_advice=` argument). -/
+def adviceOf {W : Type} (d : Defaults) (cfg : Cfg) (a : Args W) : AdviceAssertion W :=
+  let policy : Restrictions := a.releasePolicy.getD cfg.policy
+  let nooa := a.now + lifetimeFor d cfg policy a.spEntityId
+  { encrypted := cfg.encCerts.contains a.spEntityId
+    issuer := some cfg.entityId
+    sig := none
+    nameId := none
+    confs := [adviceConf d a nooa]
+    condNb := some a.now
+    condNooa := some nooa
+    audiences := [[a.spEntityId]]
+    authn := []
+    attrs := a.attrs }
+
+/-- PEFIM: the Response of `create` whose assertion carries no attributes (`empty` = `from_local` of nothing)
+    but the attribute assertion as advice. -/
+def pefimShape {W : Type} (empty : W) (d : Defaults) (cfg : Cfg) (a : Args W) (r : Issued W) : Issued W :=
+  { r with assertions := r.assertions.map fun x => { x with attrs := empty, advice := [adviceOf d cfg a] } }
+
+/-- `best_effort` as `gather_authn_response_args` resolves it (no configuration value modelled). -/
+def bestEffortOf {W : Type} (a : Args W) : Bool := a.bestEffort.getD false
+
+/-- `error_status_factory(exc)` for an exception class outside EXCEPTION2STATUS. -/
+def statusResponder : String := "urn:oasis:names:tc:SAML:2.0:status:Responder"
+def statusAuthnFailed : String := "urn:oasis:names:tc:SAML:2.0:status:AuthnFailed"
+
+/-- `create_error_response(in_response_to, destination, exc, sign=sign_response, …)`: no assertion;
+    signed iff the ARGUMENT says so, else iff the configuration does (`Entity.should_sign`), through `Entity.sign`. -/
+def errorResponse {W : Type} (d : Defaults) (cfg : Cfg) (a : Args W) : Except Refusal (Issued W) :=
+  let si := sigInfo d cfg a
+  let response (sig : Option SigInfo) : Issued W :=
+    { issuer := some cfg.entityId
+      destination := if a.destination != "" then some a.destination else none
+      inResponseTo := some a.inResponseTo
+      issueInstant := a.now
+      sig := sig
+      assertions := []
+      statusTop := statusResponder
+      statusSecond := some statusAuthnFailed }
+  if a.signResponse.getD (cfg.signResponse.getD false) then
+    if !d.sigAllowed.contains si.sigAlg then .error .sigAlgNotAllowed
+    else if !d.digestAllowed.contains si.digestAlg then .error .digestAlgNotAllowed
+    else .ok (response (some si))
+  else .ok (response none)
+
+/-- `create_authn_response` with the profile switch and the identifier store's state:
+    * the store cannot be read and no `name_id=` is given: `gather_authn_response_args` raises OSError,
+      which becomes an error Response;
+    * `pefim`: a requester that requires an attribute the identity lacks makes `setup_assertion` hand back
+      the LINES of an error Response unless `best_effort`; appended as advice they cannot be written out;
+      otherwise `create`'s Response reshaped (`pefimShape`);
+    * else `create` (the non-PEFIM branch runs `setup_assertion` with `best_effort=True`). -/
+def issue {W : Type} (empty : W) (d : Defaults) (cfg : Cfg) (a : Args W) : Except Refusal (Issued W) :=
+  if a.storeFails && a.nameId.isNone then errorResponse d cfg a
+  else if a.pefim then
+    match create d cfg a with
+    | .error e => .error e
+    | .ok r => if cfg.unmet.contains a.spEntityId && !bestEffortOf a then .error .adviceNotElement
+               else .ok (pefimShape empty d cfg a r)
+  else create d cfg a
+
 /-! ### the forms a boolean option may take in the configuration (`Config.load_special`) -/
 
 /-- A value as written in the configuration dictionary. -/
@@ -441,8 +540,9 @@ deriving Repr, DecidableEq, Inhabited
 def forward {W : Type} (e : Entry) (a : Args W) : Args W :=
   match e with
   | .authnResponse => a
-  | .authnRequestResponse => { a with farg := none, status := none, releasePolicy := none }
-  | .ecp => { a with farg := none, status := none, releasePolicy := none, sessionNooa := none }
+  | .authnRequestResponse => { a with farg := none, status := none, releasePolicy := none, pefim := false, bestEffort := none }
+  | .ecp => { a with farg := none, status := none, releasePolicy := none, sessionNooa := none, pefim := false,
+                     bestEffort := none }
 
 def isSigned {W : Type} (r : Issued W) : Bool := r.sig.isSome || r.assertions.any (·.sig.isSome)
 
@@ -453,6 +553,12 @@ def createVia {W : Type} (e : Entry) (d : Defaults) (cfg : Cfg) (a : Args W) : E
   match create d cfg (forward e a) with
   | .error x => .error x
   | .ok r => if e == .ecp && isSigned r then .error .ecpSignedNotElement else .ok r
+
+/-- An entry point on `issue`.  The ECP one cannot wrap an error Response either (a list of lines). -/
+def issueVia {W : Type} (empty : W) (e : Entry) (d : Defaults) (cfg : Cfg) (a : Args W) : Except Refusal (Issued W) :=
+  match issue empty d cfg (forward e a) with
+  | .error x => .error x
+  | .ok r => if e == .ecp && (isSigned r || r.assertions.isEmpty) then .error .ecpSignedNotElement else .ok r
 
 /-! ### hand-over to the service-provider model -/
 
@@ -497,6 +603,25 @@ def recovered {L W : Type} (c : Conv L W) (r : Issued W) : Option L :=
   match r.assertions with
   | x :: _ => some (c.toLocal x.attrs)
   | [] => none
+
+/-- … with advice: `get_identity` reads the attribute statement of an advice assertion (in clear, or opened
+    with the SP's key) — under PEFIM the assertion itself carries none. -/
+def recoveredAdv {L W : Type} (c : Conv L W) (r : Issued W) : Option L :=
+  match r.assertions with
+  | x :: _ =>
+    match x.advice with
+    | adv :: _ => some (c.toLocal adv.attrs)
+    | [] => some (c.toLocal x.attrs)
+  | [] => none
+
+/-- The composition for `issue`: `Sp.process` looks at the Response and its assertions (never into the
+    advice); on identity the attributes come through `recoveredAdv`. -/
+def endToEndAdv {L W : Type} (c : Conv L W) (spCfg : Sp.Cfg) (env : Sp.Env) (trusts : Bool) (r : Issued W) :
+    Sp.Outcome × Option L :=
+  let o := Sp.process spCfg env (toSp trusts r)
+  (o, match o with
+      | .identity _ => recoveredAdv c r
+      | _ => none)
 
 /-- The composition the second sentence of C09 is about: the issued Response handed to the SP. -/
 def endToEnd {L W : Type} (c : Conv L W) (spCfg : Sp.Cfg) (env : Sp.Env) (trusts : Bool) (r : Issued W) :
